@@ -128,8 +128,8 @@ package postprocessor
 //@   requires item != nil && item.url != nil && models.wfNode(item) && config.config != nil && models.dwrDef()
 //@   requires [archived-has-response] item.status == models.ItemArchived ==> item.url.response != nil
 //@   loop range invariant [tree] item != nil && models.wfNode(item) && config.config != nil && item.url != nil && item.url == old(item.url) && item.parent == old(item.parent)
-//@   loop range invariant [status] @C01 item.status == models.ItemArchived || (item.status == models.ItemGotChildren && len(item.children) > 0)
-//@   loop range#2 invariant [status] @C01 item.status == models.ItemArchived || (item.status == models.ItemGotChildren && len(item.children) > 0)
+//@   loop range invariant [status] @C01 (item.status == models.ItemArchived && len(item.children) == old(len(item.children))) || (item.status == models.ItemGotChildren && len(item.children) > 0)
+//@   loop range#2 invariant [status] @C01 (item.status == models.ItemArchived && len(item.children) == old(len(item.children))) || (item.status == models.ItemGotChildren && len(item.children) > 0)
 //@   local hP int = 0
 //@   after extractAssets(item)#1: hP = item.url.Hops
 //@   loop range invariant [outs-kept] item.url.Hops == hP && outsSep(assets, outlinksFromAssets) && forall(j, 0, len(outlinksFromAssets), outlinksFromAssets[j] != nil ==> outlinksFromAssets[j].Hops == hP + 1)
@@ -142,7 +142,7 @@ package postprocessor
 //@   ensures [hops-gate] old(!domainscrawl.dcOn() && item.url.Hops >= config.config.MaxHops) ==> len(result) == 0 // C06: outlinks that do not match --domains-crawl are queued only from pages with fewer than --max-hops hops
 //@   ensures [outlink-hops] forall(k, 0, len(result), result[k] != nil ==> result[k].url != nil && (result[k].url.Hops == item.url.Hops + 1 || (domainscrawl.dcOn() && result[k].url.Hops == 0))) // C06: outlinks ... carry the parent's hops + 1, outlinks that match it (--domains-crawl) are queued with hops 0
 //@   ensures [body-closed] @C16 item.url.body == nil // C16: no response body ... remains open (postprocessItem defers closeBody: every exit path, including the early ones, closes the node's body)
-//@   ensures [work-done] @C01 old(item.status) == models.ItemArchived ==> item.status == models.ItemCompleted || (item.status == models.ItemGotChildren && len(item.children) > 0) || (item.status == models.ItemGotRedirected && len(item.children) > 0) // C01: only after every URL in its tree has been fetched, skipped or has failed for good - and never dropped (a post-processed node leaves the archived state on every path: completed, or waiting for the children it was given; a node left archived would keep its seed circulating for ever)
+//@   ensures [work-done] @C01 old(item.status) == models.ItemArchived ==> (item.status == models.ItemCompleted && len(item.children) == old(len(item.children))) || (item.status == models.ItemGotChildren && len(item.children) > 0) || (item.status == models.ItemGotRedirected && len(item.children) > 0) // C01: only after every URL in its tree has been fetched, skipped or has failed for good - and never dropped (a post-processed node leaves the archived state on every path: completed, or waiting for the children it was given; a node left archived would keep its seed circulating for ever)
 //@   ensures [not-archived] old(item.status) != models.ItemArchived ==> item.status == old(item.status) && len(item.children) == old(len(item.children)) && len(result) == 0
 //@   ensures [redirect-max] old(item.status == models.ItemArchived && isRedirectCode(item.url.response.StatusCode) && item.url.Redirects >= config.config.MaxRedirect) ==> item.status == models.ItemCompleted && len(item.children) == 0 && len(result) == 0 // C06: at most --max-redirect redirects are followed in a chain
 //@   ensures [redirect-one] old(item.status == models.ItemArchived && isRedirectCode(item.url.response.StatusCode) && item.url.Redirects < config.config.MaxRedirect) ==> item.status == models.ItemGotRedirected && len(item.children) == 1 && item.children[0].url.Redirects == old(item.url.Redirects) + 1 && item.children[0].url.Hops == old(item.url.Hops) && item.children[0].status == models.ItemFresh && len(result) == 0 // C06: redirect targets inherit the page's hops
